@@ -252,9 +252,8 @@ func genC01(g *Gen, tier string, idx int) *wire.Scenario {
 		sc.Plan.Class = "S3"
 		sc.Plan.Faults = g.faultPlan(len(sc.Script), true)
 	}
-	if g.P(15) {
-		sc.Plan.Disturb = append(sc.Plan.Disturb, wire.Disturb{Kind: "sigwinch", Task: "main", Site: "inputwait", Nth: g.Range(1, len(sc.Script)+1)})
-	}
+	// no resize here: the statement is about keyboard input and its failures; resizes and
+	// asynchronous prints during an edit are C20's
 	return sc
 }
 
